@@ -172,8 +172,12 @@ func lookupsIn(f *ssa.Function) []mapLook {
 func acctCalls(f *ssa.Function, kind string) []*ssa.Call {
 	var out []*ssa.Call
 	eachInstr(f, func(in ssa.Instruction) {
-		if c, ok := in.(*ssa.Call); ok && callAcctKind(c) == kind {
-			out = append(out, c)
+		if c, ok := in.(*ssa.Call); ok {
+			for _, k := range acctKindsOfCall(c) {
+				if k == kind {
+					out = append(out, c)
+				}
+			}
 		}
 	})
 	return out
@@ -276,7 +280,7 @@ func checkC12(c *Ctx, r *Report) {
 				} else {
 					found := false
 					for _, d := range decs {
-						if len(d.Call.Args) == 2 && sizeFromOld(d.Call.Args[1], old) && guardedByTruth(f, d, okv, true) {
+						if sa := acctSizeArg(d, "subSize"); sa != nil && sizeFromOld(sa, old) && guardedByTruth(f, d, okv, true) {
 							found = true
 							if ex := exitsAvoiding(u, isInstr(d), pruneTruth(f, okv, true)); len(ex) > 0 {
 								problems = append(problems, "when the key existed, some path from the insert to "+c.InstrPos(ex[0])+" skips the subtraction of the replaced entry's size")
@@ -310,7 +314,7 @@ func checkC12(c *Ctx, r *Report) {
 			})
 			okAdd := false
 			for _, a := range adds {
-				if len(a.Call.Args) == 2 && sizeStore != nil && unconv(a.Call.Args[1]) == unconv(sizeStore) {
+				if sa := acctSizeArg(a, "addSize"); sa != nil && sizeStore != nil && unconv(sa) == unconv(sizeStore) {
 					okAdd = true
 				}
 			}
@@ -365,7 +369,7 @@ func checkC12(c *Ctx, r *Report) {
 					problems = append(problems, "no decrementCacheSize")
 				}
 				for _, s := range decS {
-					if len(s.Call.Args) != 2 || !sizeFromOld(s.Call.Args[1], old) {
+					if sa := acctSizeArg(s, "subSize"); sa == nil || !sizeFromOld(sa, old) {
 						problems = append(problems, "decrementCacheSize at "+c.InstrPos(s)+" is not sourced from the removed entry's recorded Size (provenance mismatch)")
 					}
 				}
@@ -414,8 +418,8 @@ func checkC12(c *Ctx, r *Report) {
 					if mk, ok := trackedMapField(x.Call.Args[0]); ok {
 						what = "delete from " + mk
 					}
-				} else if k := callAcctKind(x); k != "" {
-					what = "accounting " + k
+				} else if ks := acctKindsOfCall(x); len(ks) > 0 {
+					what = "accounting " + strings.Join(ks, "+")
 				} else if n := calleeName(x); n == "os.Rename" || n == "os.Remove" || n == "os.RemoveAll" {
 					// the entry file itself appears / disappears: same critical section as its bookkeeping.
 					// Removal of a temp file that was never published is not an entry operation.
@@ -597,7 +601,13 @@ func checkCounterOwnership(c *Ctx, r *Report, li *LockInfo) {
 					switch x := ref.(type) {
 					case *ssa.Call:
 						n := calleeName(x)
-						if k := callAcctKind(x); (k == "addSize" || k == "subSize") && len(x.Call.Args) > 0 && x.Call.Args[0] == ssa.Value(fa) {
+						k := callAcctKind(x)
+						for _, k2 := range acctKindsOfCall(x) {
+							if k2 == "addSize" || k2 == "subSize" {
+								k = k2
+							}
+						}
+						if (k == "addSize" || k == "subSize") && len(x.Call.Args) > 0 && x.Call.Args[0] == ssa.Value(fa) {
 							r.OkT("C12.R3", key+" via "+k+" helper", c.InstrPos(x), "passed to accounting helper")
 						} else if strings.HasSuffix(n, "atomics.Int64).Get") {
 							r.OkT("C12.R3", key+" via Get", c.InstrPos(x), "read-only")
